@@ -10,7 +10,10 @@ RULE = ("every graph on n<=3 nodes over the 9 per-pair kinds {none,->,<-,<->,->&
         "ADMGs with 1-2 edits: the three functions are called on G0 and discarded, G0 is edited in place, the judged calls run on the "
         "same object against the model of the final graph. boundary stream: the empty graph (fresh / emptied in place by remove_nodes_from after a warm-up), isolated nodes only "
         "(n<=5), a node dropped in place, each with L, S omitted and with explicit empty sets (every ADMG(n<=3) also with explicit empty "
-        "sets); argument integrity on every case (graph snapshot, the two set objects stay empty). size stream: collider dead-end shapes with 7-14 nodes (a bidirected 3/4/5-clique "
+        "sets); argument integrity on every case (graph snapshot, the two set objects stay empty). shaped stream: 350 (4000) ancestral graphs with 6-8 nodes built around an inducing path x <-> c1 <-> .. <-> ck <-> y whose colliders "
+        "reach x / y through directed paths of length 1-3, with random decorations and relabellings (most are non-maximal; the model decides). "
+        "dense stream: 250 random ADMGs with 6-8 nodes and edge density 0.7-0.9; 40 graphs with identity-hashed label objects. "
+        "size stream: collider dead-end shapes with 7-14 nodes (a bidirected 3/4/5-clique "
         "of admissible colliders next to the true inducing path x <-> c1 <-> c2 <-> y; one- and two-sided) under rotations of the integer "
         "labels, random relabellings and alternating insertion orders (model only, oracle off above 6 nodes). distinct by canonical graph (pair); non-trivial = acyclic, no undirected edge and "
         "at least one non-adjacent pair (maximality is not vacuous)")
@@ -106,9 +109,96 @@ def boundary_cases(tier, rng):
             yield {"kind": "explicit%d" % n, "g": g, "oracle": True, "_explicit": True}
 
 
+def is_ancestral(g):
+    """acyclic, no bow, no bidirected edge between a node and one of its ancestors"""
+    if not gr.is_acyclic(g["V"], g["D"]):
+        return False
+    anc = {v: set() for v in g["V"]}
+    changed = True
+    while changed:
+        changed = False
+        for a, b in g["D"]:
+            new = ({a} | anc[a]) - anc[b]
+            if new:
+                anc[b] |= new
+                changed = True
+    return all(a not in anc[b] and b not in anc[a] for a, b in g["B"])
+
+
+def shaped_cases(tier, rng):
+    """ancestral NON-maximal shapes with 6-8 nodes: an inducing path x <-> c1 <-> ... <-> ck <-> y (k = 2, 3) whose colliders reach
+    x or y only through directed paths of length 1-3 via intermediate nodes, plus decorations (extra spouses / children / parents of
+    the end points, colliders and intermediates), under random relabellings.  Graphs that are not ancestral after decoration are
+    dropped; the model decides (maximal_is_separable_all makes its answer authoritative at any size)."""
+    want = 350 if tier == "quick" else 4000
+    made, tries = 0, 0
+    while made < want and tries < want * 40:
+        tries += 1
+        k = rng.choice((2, 2, 3))
+        x, y = 0, 1
+        cs = list(range(2, 2 + k))
+        nxt = 2 + k
+        B = [(x, cs[0])] + [(cs[i], cs[i + 1]) for i in range(k - 1)] + [(cs[-1], y)]
+        D = []
+        inter = []
+        for c in cs:
+            tgt = rng.choice((x, y))
+            ln = rng.choice((1, 2, 2, 2, 3))
+            prev = c
+            for _ in range(ln - 1):
+                if nxt >= 8:
+                    break
+                D.append((prev, nxt))
+                inter.append(nxt)
+                prev = nxt
+                nxt += 1
+            D.append((prev, tgt))
+        n = min(8, max(6, nxt + rng.randint(0, 2)))
+        V = list(range(n))
+        for _ in range(rng.randint(0, 4)):           # decorations
+            a, b = rng.sample(V, 2)
+            if {a, b} == {x, y} or any({a, b} == set(e) for e in B + D):
+                continue
+            if rng.random() < 0.5:
+                B.append((a, b))
+            else:
+                D.append((a, b))
+        g = gr.G(V, D=D, B=B)
+        if not is_ancestral(g):
+            continue
+        perm = list(range(n))
+        rng.shuffle(perm)
+        h = gr.relabel(g, lambda v: perm[v])
+        if made % 2:
+            h["V"] = sorted(h["V"])
+        made += 1
+        yield {"kind": "shaped%d" % n, "g": h, "oracle": n <= 6}
+    # the two demo shapes and the minimal 6-node witness, under rotations
+    demos = [gr.G(range(6), D=[(2, 4), (4, 1), (3, 5), (5, 0)], B=[(0, 2), (2, 3), (3, 1)]),
+             gr.G(range(8), D=[(2, 4), (4, 1), (3, 5), (5, 0)], B=[(0, 2), (2, 3), (3, 1), (0, 6), (6, 4)]),
+             gr.G(range(7), D=[(2, 4), (4, 1), (3, 5), (5, 0), (6, 1)], B=[(0, 2), (2, 3), (3, 1), (0, 6)])]
+    for g in demos:
+        n = len(g["V"])
+        for r in range(n):
+            yield {"kind": "shaped-demo", "g": gr.relabel(g, lambda v: (v + r) % n), "oracle": n <= 6}
+
+
+def dense_cases(tier, rng):
+    """dense random ADMGs (edge density 0.7-0.9) with 6-8 nodes, half of them bow-free"""
+    for i in range(250 if tier == "quick" else 2500):
+        n = rng.randint(6, 8)
+        g = gr.random_kinds_graph(rng, n, ["none", "->", "<-", "<->"] if i % 2 else gr.ADMG_KINDS, p_edge=rng.choice([0.7, 0.8, 0.9]))
+        yield {"kind": "dense", "g": g, "oracle": n <= 6}
+    for i in range(40):
+        n = rng.randint(4, 7)
+        yield {"kind": "obj", "g": gr.random_kinds_graph(rng, n, ["none", "->", "<-", "<->"], p_edge=0.4), "oracle": False, "_lab": "obj"}
+
+
 def gen_cases(tier, rng):
     quick = tier == "quick"
     yield from boundary_cases(tier, rng)
+    yield from shaped_cases(tier, rng)
+    yield from dense_cases(tier, rng)
     yield from repeat_cases(tier, rng)
     yield from size_cases(tier, rng)
     for n in (1, 2, 3):
@@ -215,7 +305,8 @@ def nontrivial(case, model):
 
 
 def key(case):
-    return (gr.canon(case["g"]), gr.canon(case["g0"]) if case.get("g0") else None, case.get("_order"), bool(case.get("_explicit")))
+    return (gr.canon(case["g"]), gr.canon(case["g0"]) if case.get("g0") else None, case.get("_order"), bool(case.get("_explicit")),
+            case.get("_lab", "int"))
 
 
 def shrink(case):
